@@ -275,6 +275,7 @@ def modelcheck(kripke, formula, parser=None, F=None):
 
             p_formula = p_formula.get_equivalent_non_fair_formula(fair_label)
             p_formula = And(fair_label, p_formula)
+            p_formula = p_formula.get_equivalent_restricted_formula()
 
         return set(kripke.states())-_checkE_path_formula(kripke, p_formula)
     except TypeError:
